@@ -110,7 +110,32 @@ func (cr *ChunkReader) Read(p []byte) (int, error) {
 		// a truncated upload must not be taken for a complete one
 		return n, errInvalidChunkFormat
 	}
+	if err == io.EOF && cr.finished && !cr.isEOF {
+		// The underlying reader defers the request authorization until
+		// it reaches io.EOF. The final chunk may have been delivered
+		// before the end of the stream was (e.g. with chunked transfer
+		// encoding the end arrives in a read of its own): make sure the
+		// end is actually read
+		if derr := cr.readToEOF(); derr != nil {
+			return n, derr
+		}
+	}
 	return n, err
+}
+
+// readToEOF reads the underlying reader until it reports io.EOF
+func (cr *ChunkReader) readToEOF() error {
+	var buf [512]byte
+	for {
+		_, err := cr.r.Read(buf[:])
+		if err == io.EOF {
+			cr.isEOF = true
+			return nil
+		}
+		if err != nil {
+			return err
+		}
+	}
 }
 
 func (cr *ChunkReader) read(p []byte) (int, error) {
